@@ -157,7 +157,7 @@ def build(tier, repo):
 
     r3b = chk.rule("C02-R3b", "block-offset discipline in conelp (certificate branches included)", "symmetrisation addresses the right blocks")
     rc.offsets_rule(r3b, w, [("coneprog", "conelp")])
-    r3b.require(40)
+    r3b.require(28)
 
     r4 = chk.rule("C02-R4", "propagation: socp/sdp test sol['s'|'z'] for None before slicing and store None in the derived keys; lp returns conelp's result; op.solve copies status and values",
                   "status/None propagate into wrappers and op.solve")
